@@ -16,10 +16,10 @@ import (
 // pointer escaping, non-ASCII, spaces and HTML characters; numbers are
 // literals chosen to expose any conversion; strings need JSON escaping.
 var (
-	KeyPool   = []string{"a", "b", "c", "d", "0", "1", "-1", "x/y", "m~n", "~1", "é", "k k", "-", "<&>", "a/b~c", "e f", "%d", "b\\s", "ab"}
+	KeyPool   = []string{"a", "b", "c", "d", "0", "1", "-1", "x/y", "m~n", "~1", "é", "k k", "-", "<&>", "a/b~c", "e f", "%d", "b\\s", "ab", "k\\"}
 	PlainKeys = []string{"a", "b", "c", "d", "e", "f", "k0", "k1"}
 	NumPool   = []string{"0", "1", "-1", "2", "10", "1.0", "1.5", "-0", "1e2", "1E400", "12345678901234567890123", "0.1", "-2.50", "1e-7", "100000000000000000000", "0.30000000000000004", "2E+2", "9007199254740992", "9007199254740993", "1700000000", "1700000001"}
-	StrPool   = []string{"", "a", "b", "x y", "é", "<&>", "q\"uote", "back\\slash", "line\nfeed", "😀", " ", "tab\there", "</script>", "a&b", "u v w", "\u0001ctl", "/", "~", "25% off %s", "%!v(x)", "cr\rlf"}
+	StrPool   = []string{"", "a", "b", "x y", "é", "<&>", "q\"uote", "back\\slash", "line\nfeed", "😀", " ", "tab\there", "</script>", "a&b", "u v w", "\u0001ctl", "/", "~", "25% off %s", "%!v(x)", "cr\rlf", "C:\\"}
 )
 
 // Cfg selects pools and sizes.
